@@ -27,7 +27,7 @@ class StrlCheck:
     def shards(self, tier, seed):
         drv, info = self._driver()
         nshards = 16
-        per = 45 if tier == "quick" else 1500
+        per = 45 if tier == "quick" else 500
         return [{"seed": seed, "shard": i, "count": per, "driver": drv, "build": info, "tier": tier} for i in range(nshards)]
 
     def replay_spec(self, case):
